@@ -244,6 +244,17 @@ def check(ctx, R):
     for f, n, c in sites:
         ok, why, info = writeall_shape(ctx, f, n, c)
         R.check(ok, "RET", "%s|%s" % (f.qualname, norm_stmt(n.ast)), why, why, f.loc(n.ast))
+        # a write whose exception is swallowed and retried can put bytes on the wire twice (or skip them): the call must raise
+        from .c12 import handler_completes
+        g = ctx.cfg(f)
+        for (t, region) in n.trys:
+            if region != "body":
+                continue
+            for h in t.handlers:
+                hn = [x for x in g.nodes_of(h) if x.kind == "except"]
+                if hn and handler_completes(g, hn[0]):
+                    R.fail("RET-retry", "%s|%s" % (f.qualname, norm_stmt(h.type) if h.type is not None else "bare"),
+                           "an exception of the transport write is swallowed (`except %s`) and the write loop goes on: data a transport already buffered before failing is sent again, or a failed write is ignored - the message no longer arrives exactly once, in order" % (norm_stmt(h.type) if h.type is not None else ""), f.loc(h))
     # the write-all function must receive whole buffers: its callers pass their buffer unchanged (checked in C02);
     # here: the buffer parameter of the write-all function is not modified before the loop
     pkg = ctx.pkg
